@@ -43,10 +43,12 @@ def load_all(root, top='Manifest'):
         for e in s.manifests[mp]:
             if e.tag == 'TIMESTAMP' or e.tag == 'DIST':
                 continue
-            full = os.path.normpath(join(mdir, e.path))
             if e.tag == 'IGNORE':
-                s.ignores.append(full.rstrip('/'))
+                s.ignores.append(
+                    os.path.normpath(join(mdir, e.path)).rstrip('/'))
                 continue
+            # (paths are taken literally, as gemato does: './f' is not 'f')
+            full = join(mdir, e.path)
             s.entries.setdefault(full, []).append((mp, e))
             if e.tag != 'MANIFEST':
                 continue
